@@ -74,23 +74,54 @@ Proof.
     + split; [intros _; left; split; reflexivity | reflexivity].
 Qed.
 
-Lemma atom_implies_sound a d : atom_implies a d = true ->
-  forall o i, check o a i = true -> check o d i = true.
+(* the claim about the oracle-decided enum validators: nothing outside the enumeration passes *)
+Definition enum_sound (o : oracle) : Prop :=
+  forall n p alts v, In (n, p, alts) enum_claims -> o n p v = true -> In v alts.
+
+Lemma claim_for_in n p A : claim_for n p = Some A -> In (n, p, A) enum_claims.
 Proof.
-  unfold atom_implies. intros H o i Hc.
+  unfold claim_for. destruct (find _ enum_claims) as [c|] eqn:E; [|discriminate].
+  intros H. injection H as <-. apply find_some in E. destruct E as [Hin Hk].
+  apply andb_true_iff in Hk. destruct Hk as [Hn Hp]. apply str_eqb_spec in Hn. apply str_eqb_spec in Hp.
+  destruct c as [[n' p'] A']. cbn [fst snd] in *. subst. exact Hin.
+Qed.
+
+(* what the check evaluates is the claim restricted to the strings it asked about *)
+Lemma enum_sound_on_spec o vals :
+  enum_sound_on o vals = true <->
+  forall n p alts v, In (n, p, alts) enum_claims -> In v vals -> o n p v = true -> In v alts.
+Proof.
+  unfold enum_sound_on. rewrite forallb_forall. split.
+  - intros H n p alts v Hc Hv Ho. specialize (H _ Hc). cbn [fst snd] in H.
+    rewrite forallb_forall in H. specialize (H v Hv). rewrite Ho in H. cbn [implb] in H.
+    apply mem_str_spec. exact H.
+  - intros H [[n p] alts] Hc. cbn [fst snd]. apply forallb_forall. intros v Hv.
+    destruct (o n p v) eqn:Ho; [|reflexivity]. cbn [implb]. apply mem_str_spec. exact (H n p alts v Hc Hv Ho).
+Qed.
+
+Lemma enum_sound_on_all o : enum_sound o -> forall vals, enum_sound_on o vals = true.
+Proof. intros H vals. apply enum_sound_on_spec. intros n p alts v Hc _ Ho. exact (H n p alts v Hc Ho). Qed.
+
+Lemma atom_implies_sound a d : atom_implies a d = true ->
+  forall o, enum_sound o -> forall i, check o a i = true -> check o d i = true.
+Proof.
+  unfold atom_implies. intros H o Henum i Hc.
   apply orb_true_iff in H. destruct H as [H|H].
   - apply rule_eqb_true in H. subst. exact Hc.
   - destruct a, d; try discriminate H; cbn [check] in *.
     + apply mem_str_spec in Hc. apply mem_str_spec.
       rewrite forallb_forall in H. apply mem_str_spec. apply H. exact Hc.
     + apply N.leb_le in H. apply N.leb_le in Hc. apply N.leb_le. lia.
+    + destruct (claim_for name param) as [A|] eqn:EA; [|discriminate H].
+      apply claim_for_in in EA. rewrite forallb_forall in H.
+      apply H. exact (Henum _ _ _ _ EA Hc).
 Qed.
 
 (* the once-proved fact behind the per-run obligation, for one field *)
 Lemma rules_imply_sound a d : rules_imply a d = true ->
-  forall o i, eval o a i = None -> eval o d i = None.
+  forall o, enum_sound o -> forall i, eval o a i = None -> eval o d i = None.
 Proof.
-  unfold rules_imply. intros H o i Ha.
+  unfold rules_imply. intros H o Henum i Ha.
   destruct (split_guard a) as [ga ba] eqn:Ea. destruct (split_guard d) as [gd bd] eqn:Ed.
   repeat (apply andb_true_iff in H; destruct H as [H ?]).
   rename H into Hoa. rename H2 into Hod. rename H1 into Hg. rename H0 into Hall.
@@ -101,7 +132,7 @@ Proof.
   - right. apply forallb_forall. intros rd Hrd.
     rewrite forallb_forall in Hall. specialize (Hall rd Hrd).
     apply existsb_exists in Hall. destruct Hall as [ra [Hra Himp]].
-    apply (atom_implies_sound ra rd Himp).
+    apply (atom_implies_sound ra rd Himp o Henum).
     rewrite forallb_forall in Hpass. apply Hpass. exact Hra.
 Qed.
 
@@ -165,17 +196,17 @@ Qed.
 
 (* a violated declared field is reported, under the name the running code gives it *)
 Lemma covered_reports o d a cfg ed :
-  schema_at_least d a = true -> In ed (violated_entries o d cfg) ->
+  schema_at_least d a = true -> enum_sound o -> In ed (violated_entries o d cfg) ->
   exists t, In (name_in a ed, t) (all_errors o a cfg).
 Proof.
-  intros Hs Hv. apply violated_entries_spec in Hv. destruct Hv as [Hd [i [Hi He]]].
+  intros Hs Henum Hv. apply violated_entries_spec in Hv. destruct Hv as [Hd [i [Hi He]]].
   unfold schema_at_least in Hs. rewrite forallb_forall in Hs. specialize (Hs ed Hd).
   unfold covered in Hs. unfold name_in.
   destruct (entry_at a (e_path ed)) as [ea|] eqn:Eat; [|discriminate Hs].
   apply andb_true_iff in Hs. destruct Hs as [Hlive Himp].
   apply entry_at_some in Eat. destruct Eat as [Hina Hp].
   assert (Hea : eval o (e_eff ea) i <> None).
-  { intros Hn. apply He. apply (rules_imply_sound _ _ Himp o i Hn). }
+  { intros Hn. apply He. apply (rules_imply_sound _ _ Himp o Henum i Hn). }
   destruct (eval o (e_eff ea) i) as [t|] eqn:Et; [|contradiction].
   exists t. unfold all_errors. apply in_flat_map. exists ea. split.
   - unfold live_part. cbv zeta. apply filter_In. split; [exact Hina | exact Hlive].
@@ -185,13 +216,13 @@ Qed.
 
 Theorem schema_at_least_sound : forall d a,
   schema_at_least d a = true ->
-  forall o cfg, violates o d cfg -> validate o a cfg <> Valid.
+  forall o cfg, enum_sound o -> violates o d cfg -> validate o a cfg <> Valid.
 Proof.
-  intros d a Hs o cfg Hv. apply violatesb_spec in Hv. unfold violatesb in Hv.
+  intros d a Hs o cfg Henum Hv. apply violatesb_spec in Hv. unfold violatesb in Hv.
   apply is_nil_false in Hv.
   destruct (violated_entries o d cfg) as [|ed l] eqn:E; [contradiction|].
   assert (Hin : In ed (violated_entries o d cfg)) by (rewrite E; left; reflexivity).
-  destruct (covered_reports o d a cfg ed Hs Hin) as [t Ht].
+  destruct (covered_reports o d a cfg ed Hs Henum Hin) as [t Ht].
   unfold validate. destruct (decode_ok a cfg); [|discriminate].
   destruct (all_errors o a cfg); [destruct Ht | discriminate].
 Qed.
@@ -199,11 +230,11 @@ Qed.
 (* and the message names every violated field *)
 Theorem schema_at_least_names : forall d a,
   schema_at_least d a = true ->
-  forall o cfg errs, validate o a cfg = Invalid errs ->
+  forall o cfg errs, enum_sound o -> validate o a cfg = Invalid errs ->
   forall ed, In ed (violated_entries o d cfg) -> In (name_in a ed) (map fst errs).
 Proof.
-  intros d a Hs o cfg errs Hval ed Hin.
-  destruct (covered_reports o d a cfg ed Hs Hin) as [t Ht].
+  intros d a Hs o cfg errs Henum Hval ed Hin.
+  destruct (covered_reports o d a cfg ed Hs Henum Hin) as [t Ht].
   unfold validate in Hval. destruct (decode_ok a cfg); [|discriminate].
   destruct (all_errors o a cfg) as [|x l] eqn:E; [discriminate|].
   inversion Hval; subst errs. apply in_map_iff. exists (name_in a ed, t). auto.
@@ -229,17 +260,17 @@ Qed.
 
 (* a document violating a declared constraint, given the per-run obligation *)
 Theorem reject_declared : forall a, schema_at_least declared_schema a = true ->
-  forall o c w cfg, violates o declared_schema cfg ->
+  forall o c w cfg, enum_sound o -> violates o declared_schema cfg ->
   exists v, cmd o a c w cfg = Rejected v /\ v <> Valid /\
             written (cmd o a c w cfg) = [] /\ analysis_started (cmd o a c w cfg) = false /\
             (forall errs, v = Invalid errs ->
                forall ed, In ed (violated_entries o declared_schema cfg) -> In (name_in a ed) (map fst errs)).
 Proof.
-  intros a Hs o c w cfg Hv.
-  assert (Hn := schema_at_least_sound _ _ Hs o cfg Hv).
+  intros a Hs o c w cfg Henum Hv.
+  assert (Hn := schema_at_least_sound _ _ Hs o cfg Henum Hv).
   destruct (cmd_rejects o a c w cfg Hn) as [Hc [Hw Hst]].
   exists (validate o a cfg). repeat split; auto.
-  intros errs He. apply (schema_at_least_names _ _ Hs o cfg errs He).
+  intros errs He. apply (schema_at_least_names _ _ Hs o cfg errs Henum He).
 Qed.
 
 (* ------------------------------------------------------------------ commands: honoured *)
@@ -398,15 +429,15 @@ Qed.
        prop_C20 o a c w cfg (observe (cmd o a c w cfg)) = true.
    Proved: the same for documents whose security schemes are well-formed across fields. *)
 Theorem prop_holds_partial : forall a, schema_at_least declared_schema a = true ->
-  forall o c w cfg, cross_ok cfg = true ->
+  forall o c w cfg, enum_sound o -> cross_ok cfg = true ->
   prop_C20 o a c w cfg (observe (cmd o a c w cfg)) = true.
 Proof.
-  intros a Hs o c w cfg Hx.
+  intros a Hs o c w cfg Henum Hx.
   destruct (validate o a cfg) as [| |errs] eqn:Ev.
   - (* accepted *)
     assert (Hnv : violatesb o declared_schema cfg = false).
     { destruct (violatesb o declared_schema cfg) eqn:E; [|reflexivity].
-      apply violatesb_spec in E. exfalso. exact (schema_at_least_sound _ _ Hs o cfg E Ev). }
+      apply violatesb_spec in E. exfalso. exact (schema_at_least_sound _ _ Hs o cfg Henum E Ev). }
     assert (He := engine_import_known _ (engine_known o cfg Hnv)).
     assert (Hr := honoured_routes w cfg He). assert (Hp := honoured_spec w cfg).
     unfold cmd. rewrite Ev.
@@ -424,19 +455,19 @@ Proof.
   - unfold cmd. rewrite Ev. apply prop_ok_rejected; [discriminate|].
     intros errs' Heq f Hf. injection Heq as <-.
     apply violated_in in Hf. destruct Hf as [ed [<- Hed]].
-    exact (schema_at_least_names _ _ Hs o cfg errs Ev ed Hed).
+    exact (schema_at_least_names _ _ Hs o cfg errs Henum Ev ed Hed).
 Qed.
 
 Theorem load_holds_partial : forall a, schema_at_least declared_schema a = true ->
-  forall o cfg, cross_ok cfg = true -> prop_C20_load o a cfg (validate o a cfg) = true.
+  forall o cfg, enum_sound o -> cross_ok cfg = true -> prop_C20_load o a cfg (validate o a cfg) = true.
 Proof.
-  intros a Hs o cfg Hx. unfold prop_C20_load. rewrite Hx. cbn [negb]. rewrite orb_false_r.
+  intros a Hs o cfg Henum Hx. unfold prop_C20_load. rewrite Hx. cbn [negb]. rewrite orb_false_r.
   destruct (violatesb o declared_schema cfg) eqn:E; [|reflexivity]. cbn [negb orb].
-  apply violatesb_spec in E. assert (Hn := schema_at_least_sound _ _ Hs o cfg E).
+  apply violatesb_spec in E. assert (Hn := schema_at_least_sound _ _ Hs o cfg Henum E).
   destruct (validate o a cfg) as [| |errs] eqn:Ev; [contradiction | reflexivity |].
   apply forallb_forall. intros f Hf. apply mem_str_spec.
   apply violated_in in Hf. destruct Hf as [ed [<- Hed]].
-  exact (schema_at_least_names _ _ Hs o cfg errs Ev ed Hed).
+  exact (schema_at_least_names _ _ Hs o cfg errs Henum Ev ed Hed).
 Qed.
 
 (* readable form of "honoured", straight from the command model *)
@@ -451,7 +482,7 @@ Theorem honoured_routes_readable : forall o a c w cfg arts r,
     (match str_at [k_routes; s "packageName"] cfg with [] => s "routes" | p => p end) /\
   attr (s "engine") (a_attrs r) = engine_import (str_at [k_routes; s "engine"] cfg) /\
   attr (s "auth") (a_attrs r) = str_at [k_routes; k_auth; s "authFileFullPackageName"] cfg /\
-  a_ctrls r = flat_map snd (filter (fun f => w_glob w (globs_of cfg) (fst f)) (w_files w)).
+  a_ctrls r = flat_map snd (filter (fun f => glob_hit w (globs_of cfg) (fst f)) (w_files w)).
 Proof.
   intros o a c w cfg arts r Hc Hin Hk.
   assert (Hr : r = routes_artifact w cfg).
@@ -475,7 +506,7 @@ Theorem honoured_spec_readable : forall o a c w cfg arts p,
   (forall e, In e (survivors (scheme_elems cfg)) ->
      exists sc, In sc (a_schemes p) /\ fst sc = scheme_name e /\ copied scheme_copy_table (norm e) (snd sc) = true) /\
   (forall sc, In sc (a_schemes p) -> In (fst sc) (map scheme_name (scheme_elems cfg))) /\
-  a_ctrls p = flat_map snd (filter (fun f => w_glob w (globs_of cfg) (fst f)) (w_files w)).
+  a_ctrls p = flat_map snd (filter (fun f => glob_hit w (globs_of cfg) (fst f)) (w_files w)).
 Proof.
   intros o a c w cfg arts p Hc Hin Hk.
   assert (Hp : p = spec_artifact w cfg).
@@ -500,6 +531,58 @@ Proof.
   intros o a c w cfg arts Hc. unfold cmd in Hc. destruct (validate o a cfg); try discriminate Hc.
   destruct (w_analysis_ok w); try discriminate Hc.
   destruct c; cbn in Hc; try destruct (w_spec_ok w); try discriminate Hc; inversion Hc; auto.
+Qed.
+
+(* ------------------------------------------------------------------ controllerGlobs *)
+
+(* a file is selected exactly when SOME expression of the list matches it *)
+Lemma glob_hit_spec w gs f : glob_hit w gs f = true <-> exists g, In g gs /\ w_glob w g f = true.
+Proof. unfold glob_hit. apply existsb_exists. Qed.
+
+(* ... so only the SET of expressions matters: neither their order nor their multiplicity *)
+Theorem glob_hit_set : forall w gs gs' f,
+  (forall g, In g gs <-> In g gs') -> glob_hit w gs f = glob_hit w gs' f.
+Proof.
+  intros w gs gs' f H.
+  destruct (glob_hit w gs f) eqn:E1, (glob_hit w gs' f) eqn:E2; try reflexivity; exfalso.
+  - apply glob_hit_spec in E1. destruct E1 as [g [Hg Hm]].
+    assert (X : glob_hit w gs' f = true) by (apply glob_hit_spec; exists g; split; [apply H; exact Hg | exact Hm]).
+    congruence.
+  - apply glob_hit_spec in E2. destruct E2 as [g [Hg Hm]].
+    assert (X : glob_hit w gs f = true) by (apply glob_hit_spec; exists g; split; [apply H; exact Hg | exact Hm]).
+    congruence.
+Qed.
+
+(* ... and a further expression, before or after, never removes a file *)
+Theorem glob_hit_mono : forall w gs before after f,
+  glob_hit w gs f = true -> glob_hit w (before ++ gs ++ after) f = true.
+Proof.
+  intros w gs before after f H. apply glob_hit_spec in H. destruct H as [g [Hg Hm]].
+  apply glob_hit_spec. exists g. split; [|exact Hm].
+  apply in_or_app. right. apply in_or_app. left. exact Hg.
+Qed.
+
+(* the controllers of the artifacts are those declared in the matched files - both directions *)
+Theorem selected_ctrls_spec : forall w cfg c,
+  In c (selected_ctrls w cfg) <->
+  exists f cs g, In (f, cs) (w_files w) /\ In c cs /\ In g (globs_of cfg) /\ w_glob w g f = true.
+Proof.
+  intros w cfg c. unfold selected_ctrls, selected_files. rewrite in_flat_map. split.
+  - intros [[f cs] [Hin Hc]]. apply filter_In in Hin. destruct Hin as [Hf Hh]. cbn [fst snd] in *.
+    apply glob_hit_spec in Hh. destruct Hh as [g [Hg Hm]]. exists f, cs, g. auto.
+  - intros [f [cs [g [Hf [Hc [Hg Hm]]]]]]. exists (f, cs). split; [|exact Hc].
+    apply filter_In. split; [exact Hf|]. cbn [fst]. apply glob_hit_spec. exists g. auto.
+Qed.
+
+(* both artifacts of a successful run list exactly those controllers *)
+Theorem done_ctrls : forall o a c w cfg arts x,
+  cmd o a c w cfg = Done arts -> In x arts -> a_ctrls x = selected_ctrls w cfg.
+Proof.
+  intros o a c w cfg arts x Hc Hin. unfold cmd in Hc. destruct (validate o a cfg); try discriminate Hc.
+  destruct (w_analysis_ok w); try discriminate Hc.
+  destruct c; cbn in Hc; try destruct (w_spec_ok w); try discriminate Hc;
+    inversion Hc; subst arts; cbn in Hin;
+    repeat (destruct Hin as [Hin|Hin]; [subst x; reflexivity|]); destruct Hin.
 Qed.
 
 (* ------------------------------------------------------------------ witnesses *)
@@ -553,6 +636,10 @@ Definition corruptions : list jv :=
     demo_cfg_with "echo" "3.1.0" "rw-r--r--" "https://api.example.com" "me@example.com" [demo_scheme];
     demo_cfg_with "echo" "3.1.0" "0600" "https://api.example.com" "me@example.com"
                   [O [("description", J "d"); ("name", J "sec1"); ("type", J "magic")]%string];
+    demo_cfg_case_variant;                                                   (* type "ApiKey" *)
+    demo_cfg_with "echo" "3.1.0" "0600" "https://api.example.com" "me@example.com"
+                  [O [("description", J "d"); ("name", J "sec1"); ("fieldName", J "k"); ("type", J "apiKey"); ("in", J "Header")]%string];
+    demo_cfg_with "Echo" "3.1.0" "0600" "https://api.example.com" "me@example.com" [demo_scheme];
     JArr [] ].
 
 Lemma demo_nonvacuous :
@@ -566,3 +653,51 @@ Lemma demo_nonvacuous :
   forallb (fun c => violatesb demo_oracle declared_schema c || negb (decode_ok declared_schema c)) corruptions = true /\
   forallb (fun c => is_nil (written (cmd demo_oracle snapshot_schema CBoth demo_world c))) corruptions = true.
 Proof. vm_compute. repeat split. Qed.
+
+(* the demo oracle keeps the enum claims (the hypothesis of the theorems is satisfiable) *)
+Lemma demo_oracle_enum_sound : enum_sound demo_oracle.
+Proof.
+  intros n p alts v Hin Ho. unfold enum_claims in Hin. cbn [In] in Hin.
+  destruct Hin as [Hin|[Hin|[]]]; inversion Hin; subst n p alts; clear Hin.
+  - change (mem str_eqb v scheme_types = true) in Ho. apply mem_str_spec. exact Ho.
+  - change (mem str_eqb v scheme_locations = true) in Ho. apply mem_str_spec. exact Ho.
+Qed.
+
+(* the enum claim is needed: under a validator that compares the scheme type without regard
+   to case, the obligation [schema_at_least] still holds of the tags, the claim fails on
+   the string "ApiKey", the document with that type violates the declared schema, is
+   accepted, and spec-and-routes writes the routes file before the spec library refuses the
+   document (which carries the value verbatim) *)
+Theorem enum_claim_needed :
+  schema_at_least declared_schema snapshot_schema = true /\
+  enum_sound_on lax_oracle [s "apiKey"; s "ApiKey"] = false /\
+  enum_sound_on demo_oracle [s "apiKey"; s "ApiKey"; s "HTTP"; s "Header"; s "header"; []] = true /\
+  violatesb lax_oracle declared_schema demo_cfg_case_variant = true /\
+  cross_ok demo_cfg_case_variant = true /\
+  validate lax_oracle snapshot_schema demo_cfg_case_variant = Valid /\
+  map a_kind (written (cmd lax_oracle snapshot_schema CBoth bad_world demo_cfg_case_variant)) = [ARoutes] /\
+  prop_C20 lax_oracle snapshot_schema CBoth bad_world demo_cfg_case_variant
+           (observe (cmd lax_oracle snapshot_schema CBoth bad_world demo_cfg_case_variant)) = false /\
+  validate demo_oracle snapshot_schema demo_cfg_case_variant = Invalid [(s "Type", s "security_schema_type")].
+Proof. vm_compute. repeat split. Qed.
+
+(* glob lists that split one directory between their expressions, in both orders, and a
+   list whose later expression adds a file of a directory the first one already touched *)
+Definition with_globs (gs : list String.string) : jv :=
+  match demo_cfg with
+  | JObj m => JObj ((k_common, O [("controllerGlobs", JArr (map J gs))]%string) :: filter (fun kv => negb (str_eqb (fst kv) k_common)) m)
+  | v => v
+  end.
+
+Lemma split_globs_nonvacuous :
+  let sel gs := selected_ctrls demo_world (with_globs gs) in
+  sel ["./ctl/main.controller.go"; "./ctl/decoy.controller.go"]%string = [s "MainController"; s "DecoyController"] /\
+  sel ["./ctl/decoy.controller.go"; "./ctl/main.controller.go"]%string = [s "MainController"; s "DecoyController"] /\
+  sel ["./ctl/decoy.controller.go"]%string = [s "DecoyController"] /\
+  sel ["./nomatch.go"; "./ctl/decoy.controller.go"; "./ctl/decoy.controller.go"]%string = [s "DecoyController"] /\
+  map (fun a => a_ctrls a)
+      (written (cmd demo_oracle snapshot_schema CBoth demo_world
+                    (with_globs ["./ctl/decoy.controller.go"; "./ctl/main.controller.go"]%string))) =
+    [[s "MainController"; s "DecoyController"]; [s "MainController"; s "DecoyController"]].
+Proof. vm_compute. repeat split. Qed.
+
